@@ -120,7 +120,10 @@ func (s *HAPeerServer) BulkSync(req *hapb.BulkSyncRequest, stream hapb.HAPeerSer
 		if backlog != nil {
 			oldest := backlog.OldestSeq()
 			newest := backlog.NewestSeq()
-			if oldest != 0 && newest != 0 {
+			// The backlog can bring the peer up to date only if it reaches back to
+			// what the peer already has; sessions whose last update has been evicted
+			// from the ring are otherwise never sent (fresh standby, wrapped backlog).
+			if oldest != 0 && newest != 0 && req.FromSequence+1 >= oldest {
 				sentFromBacklog = true
 				entries := backlog.Range(oldest, newest)
 				// Replay the latest state of every session only: a bulk page carries
@@ -253,7 +256,9 @@ func (s *HAPeerServer) bulkSyncFromIterators(srgName string, pageSize int, strea
 	}
 
 	var page []*hapb.SessionCheckpoint
-	var seq uint64
+	// The snapshot is at least as new as the sender's sequence number read before
+	// it is taken; later updates are replicated (again) by the live stream.
+	seq := s.manager.syncSender.GetSeq(srgName)
 
 	for _, iter := range iterators {
 		iter.ForEachSession(func(sess models.SubscriberSession) bool {
@@ -261,7 +266,6 @@ func (s *HAPeerServer) bulkSyncFromIterators(srgName string, pageSize int, strea
 				return true
 			}
 
-			seq++
 			page = append(page, sessionToCheckpoint(sess))
 
 			if len(page) >= pageSize {
